@@ -305,6 +305,11 @@ def main(argv):
         return 2
     t0 = time.time()
     os.makedirs(OUT, exist_ok=True)
+    # work directories left behind by runs that were killed (their process is gone): remove them, disk space is limited
+    for d in os.listdir(OUT):
+        m = re.fullmatch(r'work_C\d\d_(\d+)', d)
+        if m and not os.path.exists(f'/proc/{m.group(1)}'):
+            shutil.rmtree(os.path.join(OUT, d), ignore_errors=True)
     workdir = os.path.join(OUT, f'work_{pid}_{os.getpid()}')
     os.makedirs(workdir, exist_ok=True)
     try:
